@@ -96,7 +96,7 @@ func meta(a sdk.AccAddress) valsettypes.MsgMetadata {
 }
 
 func (r *run) queueOf(id int) string {
-	if r.kinds[id] == "slc" {
+	if k := r.kinds[id]; k == "slc" || k == "uv" {
 		return slcQueue
 	}
 	return refQueue
@@ -160,10 +160,7 @@ func (r *run) observe() map[string]any {
 			if _, mine := r.kinds[id]; !mine {
 				continue // queued by the chain itself (e.g. the valset update a snapshot rebuild publishes), not by this history
 			}
-			kind := "ref"
-			if q == slcQueue {
-				kind = "slc"
-			}
+			kind := r.kinds[id]
 			ev := make([]int, len(e.Vals))
 			for _, x := range m.GetEvidence() {
 				vi := r.valIdx(x.ValAddress)
@@ -182,7 +179,7 @@ func (r *run) observe() map[string]any {
 			}
 			sigs := []any{}
 			var bts []byte
-			if kind == "slc" {
+			if kind != "ref" {
 				bts, err = m.GetBytesToSign(e.Cdc)
 				if err != nil {
 					panic(err)
@@ -290,6 +287,37 @@ func (r *run) step(s drv.Step) (string, map[string]any) {
 			if a.Kind == "ref" {
 				id, err = e.Consensus.PutMessageInQueue(ctx, refQueue, &evmtypes.ReferenceBlockAttestation{FromBlockTime: ctx.BlockTime().UTC()},
 					&cq.PutOptions{RequireSignatures: false, PublicAccessData: []byte{1}})
+			} else if a.Kind == "uv" {
+				// a valset update the way x/evm publishes one: PublishValsetToChain for the current snapshot
+				before := map[uint64]bool{}
+				ms, _ := e.Consensus.GetMessagesFromQueue(ctx, slcQueue, 0)
+				for _, m := range ms {
+					before[m.GetId()] = true
+				}
+				snap, serr := e.Valset.GetCurrentSnapshot(ctx)
+				if serr != nil {
+					return serr
+				}
+				vs, verr := e.Evm.GetValsetByID(ctx, &evmtypes.QueryGetValsetByIDRequest{ValsetID: snap.Id, ChainReferenceID: chain})
+				if verr != nil {
+					return verr
+				}
+				ci, cerr := e.Evm.GetChainInfo(ctx, chain)
+				if cerr != nil {
+					return cerr
+				}
+				if err = e.Evm.PublishValsetToChain(ctx, *vs.Valset, ci); err != nil {
+					return err
+				}
+				ms, _ = e.Consensus.GetMessagesFromQueue(ctx, slcQueue, 0)
+				for _, m := range ms {
+					if !before[m.GetId()] {
+						id = m.GetId()
+					}
+				}
+				if id == 0 {
+					err = fmt.Errorf("valset update was not queued")
+				}
 			} else {
 				id, err = e.Evm.AddSmartContractExecutionToConsensus(ctx, chain, e.CompassID[chain], &evmtypes.SubmitLogicCall{
 					HexContractAddress: "0x00000000000000000000000000000000000000cc", Abi: []byte(abiJSON), Payload: common.FromHex("c2985578"),
@@ -309,7 +337,7 @@ func (r *run) step(s drv.Step) (string, map[string]any) {
 		var sig []byte
 		signedBy := crypto.PubkeyToAddress(r.curKey(a.V).PublicKey).Hex()
 		bts := make([]byte, 32)
-		if m != nil && r.kinds[a.ID] == "slc" {
+		if m != nil && r.kinds[a.ID] != "ref" {
 			b, err := m.GetBytesToSign(e.Cdc)
 			if err != nil {
 				panic(err)
@@ -322,8 +350,11 @@ func (r *run) step(s drv.Step) (string, map[string]any) {
 		case "stale":
 			old := make([]byte, 32)
 			old[0] = 7
-			if vs := r.oldBts[a.ID]; len(vs) > 1 {
-				old = vs[len(vs)-2]
+			// an EARLIER version of the bytes that differs from the current one (a re-assignment can bring an old version back)
+			for _, b := range r.oldBts[a.ID] {
+				if string(b) != string(bts) {
+					old = b
+				}
 			}
 			sig = ethSign(old, r.curKey(a.V))
 		case "otherchain": // the key this validator registered for ANOTHER chain, named as signer
